@@ -429,7 +429,15 @@ class Serializer:
         Raises:
             ValueError: if the
         """
-        key_values = [f'{op["key"]}{chr(31)}{op["targets"]}' for op in meas_ops]
+        meas_list = list(meas_ops)
+        keys = [op['key'] for op in meas_list]
+        if len(set(keys)) != len(keys):
+            # The results are mapped back through a dict from key to targets: a key measured
+            # more than once would silently lose all but its last measurement.
+            raise ValueError(
+                f'Measurement keys must be unique for the IonQ API, but got the keys {keys}.'
+            )
+        key_values = [f'{op["key"]}{chr(31)}{op["targets"]}' for op in meas_list]
         full_str = chr(30).join(key_values)
         # IonQ maximum value size for metadata.
         max_value_size = 40
